@@ -132,7 +132,12 @@ def coq_props(pid):
         if b.startswith('Closed under the global context'):
             assum.append('Closed under the global context')
         elif b.startswith('Axioms:'):
-            assum.append(' '.join(b.split()))
+            names = []
+            for line in b.split('\n')[1:]:
+                m = re.match(r'^([A-Za-z_][A-Za-z0-9_.\']*)\s*:', line)
+                if m:
+                    names.append(m.group(1))
+            assum.append('Axioms: ' + ' '.join(sorted(set(names))))
     return True, theorems, assum, out2
 
 
@@ -358,10 +363,20 @@ def main():
         m = re.search(r'File "([^"]+)", line (\d+)', log)
         proof_broken = 'the Coq development no longer checks (%s): %s' % (
             ('%s line %s' % (m.group(1), m.group(2))) if m else 'see log', log[-1500:])
+    coqchk = None
+    if ok and tier == 'thorough' and not a.replay and not os.environ.get('VERIF_NO_COQCHK'):
+        # independent re-check of the compiled property file and everything it depends on
+        with Lock('coq'):
+            rc, out = sh(['coqchk', '-silent', '-o', '-Q', 'theories', 'Herc', '-Q', 'props', 'HercProps', 'HercProps.' + pid],
+                         cwd=os.path.join(ROOT, 'coq'), timeout=3600)
+        summary = out[out.find('CONTEXT SUMMARY'):] if 'CONTEXT SUMMARY' in out else out[-1500:]
+        coqchk = dict(exit=rc, summary=' '.join(summary.split())[:3000])
+        if rc != 0:
+            proof_broken = 'coqchk rejects the compiled development: ' + out[-1500:]
     axioms = sorted(set(x for x in assum if x.startswith('Axioms:')))
     allowed_axioms = cfg.get('allowed_axioms', [])
     for ax in axioms:
-        if not all(any(al in part for al in allowed_axioms) for part in re.findall(r'([A-Za-z0-9_.\']+)\s*:', ax)[1:]):
+        if not all(any(al in part for al in allowed_axioms) for part in ax.split()[1:]):
             proof_broken = proof_broken or ('a property theorem depends on an axiom that is not in the trusted base: ' + ax)
 
     # ---- 2./3. harness + driver
@@ -534,7 +549,7 @@ def main():
             mismatches=len(mismatches), property_failures=len(propfails),
             known_findings_hit={k: v[1] for k, v in known_hit.items()},
             exhaustive=bool(cfg.get('exhaustive_note')), exhaustive_scope=cfg.get('exhaustive_note', ''),
-            search_after_break=searched,
+            search_after_break=searched, coqchk=coqchk,
         ),
         assumptions=cfg.get('assumptions', []),
         wall_s=round(time.time() - t_start, 1), violations=len(violations),
